@@ -422,7 +422,7 @@ theorem hill_perm_map {β : Type} (f : Str → β) (syms : List Str) :
 
 /-! ## §4 `to_graph` -/
 
-def checkStep (n : Int) (x : Int × Int) (_s : PUnit) : PyM (ForInStep PUnit) :=
+def checkStep (n : Int) (x : Int × Int) (_s : PUnit.{1}) : PyM (ForInStep PUnit.{1}) :=
   if x.1 ≥ n then .error .tucanParser
   else if x.2 ≥ n then .error .tucanParser else .ok (.yield PUnit.unit)
 
@@ -451,12 +451,13 @@ theorem forIn_inv {α β : Type} (f : α → β → PyM (ForInStep β)) (g : β 
 
 theorem check_eval (n : Int) (bonds : List (Int × Int)) (h : ∀ b ∈ bonds, b.1 < n ∧ b.2 < n) :
     forIn bonds PUnit.unit (checkStep n) = .ok PUnit.unit := by
-  rw [forIn_inv (checkStep n) (fun _ _ => PUnit.unit) (fun _ => True) (fun b => b.1 < n ∧ b.2 < n) ?_
-    bonds h PUnit.unit trivial]
-  intro a ha b _
-  refine ⟨?_, trivial⟩
-  unfold checkStep
-  rw [if_neg (by omega), if_neg (by omega)]
+  have key := forIn_inv (checkStep n) (fun _ _ => PUnit.unit) (fun _ => True)
+    (fun b => b.1 < n ∧ b.2 < n) ?_ bonds h PUnit.unit trivial
+  · rw [key]
+  · intro a ha b _
+    refine ⟨?_, trivial⟩
+    unfold checkStep
+    rw [if_neg (by omega), if_neg (by omega)]
 
 /-- one step of the attribute join, as a pure function -/
 def joinG (d : List (Int × Atom)) (e : Int × Atom) : List (Int × Atom) :=
@@ -536,6 +537,690 @@ theorem join_fold : ∀ (E d : List (Int × Atom)), (d.map (·.1)).Nodup → (E.
         rw [beq_eq_false_iff_ne]; intro h; rw [h] at hpe; simp at hpe
       simp only [alookup, this, Bool.false_eq_true, if_false]
 
+theorem bondsDict_fold : ∀ (bs : List (Int × Int)) (acc : List ((Int × Int) × Bond)),
+    bs.Nodup → (∀ b ∈ bs, b ∉ acc.map (·.1)) →
+    bs.foldl (fun d b => ainsert b ({} : Bond) d) acc = acc ++ bs.map fun b => (b, ({} : Bond))
+  | [], acc, _, _ => by simp
+  | b :: r, acc, hnd, h => by
+    rw [List.nodup_cons] at hnd
+    rw [List.foldl_cons, ainsert_not_mem (h b List.mem_cons_self), bondsDict_fold r _ hnd.2]
+    · simp
+    · intro x hx
+      simp only [List.map_append, List.map_cons, List.map_nil, List.mem_append, List.mem_singleton, not_or]
+      refine ⟨h x (List.mem_cons_of_mem _ hx), ?_⟩
+      rintro rfl
+      exact hnd.1 hx
+
+theorem zipIdx_range_map {β : Type} (f : Nat → β) (n : Nat) :
+    ((List.range n).map f).zipIdx = (List.range n).map fun i => (f i, i) := by
+  apply List.ext_getElem
+  · simp
+  · intro i h1 h2
+    simp at h1
+    simp [List.getElem_zipIdx]
+
+/-! ## §2' what the front half of the proof establishes about the sorted molecule -/
+
+/-- the atom with label `i` (`default` outside the graph) -/
+def atomAt (m : Graph) (i : Nat) : Atom := (m.attrs? i).getD default
+
+structure SortedMol (m : Graph) (n : Nat) : Prop where
+  wf : m.WF
+  simple : m.Simple
+  labels : m.labels.Perm (List.range n)
+  mol : m.MolAtoms
+  zsorted : ∀ i j, i < j → j < n → (atomAt m i).z.getD 0 ≤ (atomAt m j).z.getD 0
+
+/-- the atom record the listener creates for label `i` -/
+def bareAt (m : Graph) (i : Nat) : Atom :=
+  { sym := (atomAt m i).sym, z := (atomAt m i).z, part := some 0 }
+
+/-- the atom record `to_graph` passes to `graph_from_molecule` for label `i` -/
+def fullAt (m : Graph) (i : Nat) : Atom :=
+  { sym := (atomAt m i).sym, z := (atomAt m i).z, part := some 0,
+    mass := (atomAt m i).mass, rad := (atomAt m i).rad }
+
+namespace SortedMol
+variable {m : Graph} {n : Nat} (S : SortedMol m n)
+include S
+
+theorem mem_labels {i : Nat} : i ∈ m.labels ↔ i < n := by
+  rw [S.labels.mem_iff, List.mem_range]
+
+theorem attrs_at {i : Nat} (hi : i < n) : m.attrs? i = some (atomAt m i) := by
+  obtain ⟨x, hx⟩ := Graph.attrs?_some_of_mem (S.mem_labels.mpr hi)
+  unfold atomAt
+  rw [hx]; rfl
+
+theorem molAt {i : Nat} (hi : i < n) : MolAtom (atomAt m i) :=
+  S.mol i (S.mem_labels.mpr hi) _ (S.attrs_at hi)
+
+theorem numberOfNodes : m.numberOfNodes = n := by
+  have := S.labels.length_eq
+  simpa [Graph.numberOfNodes, Graph.labels] using this
+
+end SortedMol
+
+/-- everything the chemistry-level hypotheses say about one atom -/
+theorem molAtom_facts {x : Atom} (h : MolAtom x) :
+    ∃ (z : Int) (s : Str), x.z = some z ∧ x.sym = some s ∧ symOfZ z = some s ∧ s ∈ elementSyms ∧
+      elementZ s = some z.toNat ∧ 1 ≤ z ∧ x.inv = some [z, x.mass.getD 0, x.rad.getD 0] := by
+  obtain ⟨z, hz, hs, hi, _, _⟩ := h.chem
+  obtain ⟨s, hsym⟩ := h.sym
+  have hsz : symOfZ z = some s := by rw [← hs, hsym]
+  obtain ⟨h1, h2, h3⟩ := symOfZ_spec hsz
+  exact ⟨z, s, hz, hsym, hsz, h1, h2, h3, hi⟩
+
+theorem mkAtom_of_mol {x : Atom} (h : MolAtom x) {s : Str} (hs : x.sym = some s) :
+    mkAtom s = { sym := x.sym, z := x.z, part := some 0 } := by
+  obtain ⟨z, s', hz, hs', _, _, he, h1, _⟩ := molAtom_facts h
+  rw [hs] at hs'
+  injection hs' with hs'
+  subst hs'
+  unfold mkAtom
+  rw [he, hz, hs]
+  simp only [Option.getD_some]
+  congr 2
+  omega
+
+namespace SortedMol
+variable {m : Graph} {n : Nat} (S : SortedMol m n)
+include S
+
+theorem node_mol {nd : Node} (hn : nd ∈ m.nodes) : MolAtom nd.attrs ∧ nd.id < n ∧ nd.attrs = atomAt m nd.id := by
+  have hid : nd.id ∈ m.labels := List.mem_map_of_mem (f := (·.id)) hn
+  have ha := NxRelabel.attrs?_of_mem S.wf.nodup hn
+  refine ⟨S.mol nd.id hid _ ha, S.mem_labels.mp hid, ?_⟩
+  unfold atomAt
+  rw [ha]; rfl
+
+theorem syms_elem : ∀ s ∈ m.nodes.filterMap (·.attrs.sym), s ∈ elementSyms ∧ (elementZ s).isSome := by
+  intro s hs
+  obtain ⟨nd, hn, hsym⟩ := List.mem_filterMap.mp hs
+  obtain ⟨z, s', _, hs', _, h1, h2, _⟩ := molAtom_facts (S.node_mol hn).1
+  rw [hsym] at hs'
+  injection hs' with hs'
+  subst hs'
+  exact ⟨h1, by rw [h2]; rfl⟩
+
+theorem formula_listen (hsize : (natRepr (n + 1)).length ≤ intMaxStrDigits) :
+    listenFormula (astOf m).formula = .ok ((hillItems (m.nodes.filterMap (·.attrs.sym))).flatMap
+      fun i => List.replicate i.2 (mkAtom i.1)) := by
+  rw [listenFormula_eq]
+  show List.foldlM formulaStep [] ((hillItems (m.nodes.filterMap (·.attrs.sym))).map
+    fun i => (i.1, countText i.2)) = _
+  rw [formula_eval _ [] ?_]
+  · rfl
+  · intro i hi
+    obtain ⟨h1, _, h3⟩ := hillItems_counts (m.nodes.filterMap (·.attrs.sym))
+    obtain ⟨hpos, hcnt⟩ := h1 i hi
+    have hmem : i.1 ∈ m.nodes.filterMap (·.attrs.sym) := (h3 i.1).mp (List.mem_map_of_mem hi)
+    refine ⟨hpos, ?_, (S.syms_elem _ hmem).2⟩
+    apply natRepr_len_mono _ hsize
+    rw [hcnt]
+    unfold countOcc
+    have l1 := List.length_filter_le (fun x => x == i.1) (m.nodes.filterMap (·.attrs.sym))
+    have l2 := List.length_filterMap_le (fun (nd : Node) => nd.attrs.sym) m.nodes
+    have l3 := S.numberOfNodes
+    unfold Graph.numberOfNodes at l3
+    omega
+
+theorem bare_perm :
+    ((hillItems (m.nodes.filterMap (·.attrs.sym))).flatMap fun i => List.replicate i.2 (mkAtom i.1)).Perm
+      ((List.range n).map (bareAt m)) := by
+  refine (hill_perm_map mkAtom _).trans ?_
+  have e1 : (m.nodes.filterMap (·.attrs.sym)).map mkAtom
+      = m.nodes.filterMap (fun nd => (fun (_ : Nat) (x : Atom) => x.sym.map mkAtom) nd.id nd.attrs) := by
+    rw [List.map_filterMap]
+  rw [e1, SerializeCongr.nodes_filterMap_eq_labels S.wf (fun (_ : Nat) (x : Atom) => x.sym.map mkAtom)]
+  refine (S.labels.filterMap _).trans ?_
+  have e2 : (List.range n).filterMap (fun a => (m.attrs? a).bind fun x => x.sym.map mkAtom)
+      = (List.range n).filterMap (fun a => some (bareAt m a)) := by
+    apply SerializeCongr.filterMap_congr
+    intro a ha
+    have ha' := List.mem_range.mp ha
+    rw [S.attrs_at ha']
+    obtain ⟨s, hs⟩ := (S.molAt ha').sym
+    simp only [Option.bind_some, hs, Option.map_some]
+    rw [mkAtom_of_mol (S.molAt ha') hs]
+    rfl
+  rw [e2, List.filterMap_eq_map']
+
+end SortedMol
+
+namespace SortedMol
+variable {m : Graph} {n : Nat} (S : SortedMol m n)
+include S
+
+theorem bareAt_inj {i j : Nat} (hi : i < n) (hj : j < n)
+    (h : (bareAt m i).z.getD 0 = (bareAt m j).z.getD 0) : bareAt m i = bareAt m j := by
+  obtain ⟨z, _, hz, _, _, _, _, _, _⟩ := molAtom_facts (S.molAt hi)
+  obtain ⟨z', _, hz', _, _, _, _, _, _⟩ := molAtom_facts (S.molAt hj)
+  obtain ⟨w, hw1, hw2, _⟩ := (S.molAt hi).chem
+  obtain ⟨w', hw1', hw2', _⟩ := (S.molAt hj).chem
+  unfold bareAt at h ⊢
+  simp only [hz, hz', Option.getD_some] at h
+  subst h
+  rw [hz] at hw1; injection hw1 with hw1; subst hw1
+  rw [hz'] at hw1'; injection hw1' with hw1'; subst hw1'
+  rw [hw2, hw2', hz, hz']
+
+theorem sorted_atoms :
+    sortAtomsByZ ((hillItems (m.nodes.filterMap (·.attrs.sym))).flatMap
+      fun i => List.replicate i.2 (mkAtom i.1)) = (List.range n).map (bareAt m) := by
+  have hp := S.bare_perm
+  generalize ((hillItems (m.nodes.filterMap (·.attrs.sym))).flatMap
+      fun i => List.replicate i.2 (mkAtom i.1)) = A at hp ⊢
+  unfold sortAtomsByZ
+  have hs1 := List.pairwise_mergeSort (le := fun (a b : Atom) => decide (a.z.getD 0 ≤ b.z.getD 0))
+    (fun a b c h1 h2 => by
+      simp only [decide_eq_true_eq] at h1 h2 ⊢; omega)
+    (fun a b => by
+      simp only [Bool.or_eq_true, decide_eq_true_eq]; omega) A
+  have hs2 : ((List.range n).map (bareAt m)).Pairwise
+      (fun a b => decide (a.z.getD 0 ≤ b.z.getD 0) = true) := by
+    rw [List.pairwise_map]
+    refine List.Pairwise.imp_of_mem ?_ List.pairwise_lt_range
+    intro i j _ hj hij
+    simp only [decide_eq_true_eq]
+    exact S.zsorted i j hij (List.mem_range.mp hj)
+  refine List.Perm.eq_of_pairwise ?_ hs1 hs2 ((List.mergeSort_perm _ _).trans hp)
+  intro a b ha hb h1 h2
+  have ha' : a ∈ (List.range n).map (bareAt m) :=
+    hp.mem_iff.mp (List.mem_mergeSort.mp ha)
+  obtain ⟨i, hi, rfl⟩ := List.mem_map.mp ha'
+  obtain ⟨j, hj, rfl⟩ := List.mem_map.mp hb
+  simp only [decide_eq_true_eq] at h1 h2
+  exact S.bareAt_inj (List.mem_range.mp hi) (List.mem_range.mp hj) (by omega)
+
+end SortedMol
+
+theorem adj_symm {g : Graph} (hw : g.WF) {a b : Nat} (h : g.Adj a b) : g.Adj b a := by
+  rw [NxE.adj_iff] at h ⊢
+  obtain ⟨d, hd⟩ := h
+  exact ⟨d, NxE.WF.symmD hw hd⟩
+
+theorem adj_ne {g : Graph} (hs : g.Simple) {a b : Nat} (h : g.Adj a b) : b ≠ a := by
+  rw [NxE.adj_iff] at h
+  obtain ⟨d, hd⟩ := h
+  exact NxE.Simple.neD hs hd
+
+/-- the edge list as the parser's bond list -/
+def castE (e : Nat × Nat) : Int × Int := ((e.1 : Int), (e.2 : Int))
+
+theorem castE_inj {e e' : Nat × Nat} (h : castE e = castE e') : e = e' := by
+  unfold castE at h
+  simp only [Prod.mk.injEq] at h
+  obtain ⟨a, b⟩ := e
+  obtain ⟨a', b'⟩ := e'
+  simp only [Prod.mk.injEq]
+  simp only at h
+  omega
+
+namespace SortedMol
+variable {m : Graph} {n : Nat} (S : SortedMol m n)
+include S
+
+theorem edge_bounds {e : Nat × Nat} (he : e ∈ sortedEdges m) : e.1 < e.2 ∧ e.2 < n ∧ m.Adj e.1 e.2 := by
+  obtain ⟨a, b⟩ := e
+  obtain ⟨h1, h2⟩ := (sortedEdges_mem m S.wf S.simple a b).mp he
+  exact ⟨h1, S.mem_labels.mp (Graph.nbrs_closed S.wf h2), h2⟩
+
+theorem tuples_listen (hsize : (natRepr (n + 1)).length ≤ intMaxStrDigits) :
+    listenTuples (astOf m).tuples = .ok ((sortedEdges m).map castE) := by
+  rw [listenTuples_eq]
+  show List.foldlM tupleStep [] ((sortedEdges m).map fun e => (natRepr (e.1 + 1), natRepr (e.2 + 1))) = _
+  rw [tuples_eval _ [] ?_]
+  · rfl
+  · intro e he
+    obtain ⟨h1, h2, _⟩ := S.edge_bounds he
+    exact ⟨by omega, natRepr_len_mono (by omega) hsize, natRepr_len_mono (by omega) hsize⟩
+
+/-- the nodes in label order -/
+theorem sortedNodes_facts :
+    ((m.nodes.mergeSort fun a b => decide (a.id ≤ b.id)).map (·.id)).Nodup ∧
+    ∀ nd ∈ m.nodes.mergeSort fun a b => decide (a.id ≤ b.id), nd ∈ m.nodes := by
+  refine ⟨?_, fun nd h => List.mem_mergeSort.mp h⟩
+  exact ((List.mergeSort_perm _ _).map _).nodup_iff.mpr S.wf.nodup
+
+theorem attrs_listen (hsize : (natRepr (n + 1)).length ≤ intMaxStrDigits) :
+    listenAttrs (astOf m).attrs = .ok (((m.nodes.mergeSort fun a b => decide (a.id ≤ b.id)).filter hasAttr).map
+      fun nd => ((nd.id : Int), recOf nd.attrs)) := by
+  rw [listenAttrs_eq]
+  show List.foldlM blockStep []
+    ((m.nodes.mergeSort fun a b => decide (a.id ≤ b.id)).filterMap SerTok.nodeBlock) = _
+  rw [attrs_eval _ [] S.sortedNodes_facts.1 ?_]
+  · rfl
+  · intro nd hnd
+    obtain ⟨hmol, hid, _⟩ := S.node_mol (S.sortedNodes_facts.2 nd hnd)
+    exact ⟨natRepr_len_mono (by omega) hsize, fun v hv => (hmol.massPos v hv).2,
+      fun v hv => (hmol.radPos v hv).2, by simp⟩
+
+end SortedMol
+
+theorem hasAttr_false {nd : Node} (h : hasAttr nd = false) : nd.attrs.mass = none ∧ nd.attrs.rad = none := by
+  unfold hasAttr attrPairs at h
+  cases hm : nd.attrs.mass <;> cases hr : nd.attrs.rad <;> simp [hm, hr] at h ⊢
+
+theorem update_recOf (b x : Atom) (hm : b.mass = none) (hr : b.rad = none) :
+    b.update (recOf x) = { b with mass := x.mass, rad := x.rad } := by
+  unfold Atom.update recOf
+  cases b
+  simp only at hm hr
+  subst hm hr
+  simp only [Atom.mk.injEq]
+  refine ⟨?_, ?_, ?_, ?_, ?_, ?_, ?_, ?_, ?_, ?_, ?_, ?_⟩ <;> first | rfl | (cases x.mass <;> rfl) | (cases x.rad <;> rfl)
+
+namespace SortedMol
+variable {m : Graph} {n : Nat} (S : SortedMol m n)
+include S
+
+theorem exists_node {i : Nat} (hi : i < n) :
+    ∃ nd ∈ m.nodes.mergeSort fun a b => decide (a.id ≤ b.id), nd.id = i ∧ nd.attrs = atomAt m i := by
+  obtain ⟨nd, hnd, hid⟩ := List.mem_map.mp (S.mem_labels.mpr hi)
+  refine ⟨nd, List.mem_mergeSort.mpr hnd, hid, ?_⟩
+  rw [← hid]
+  exact (S.node_mol hnd).2.2
+
+theorem joined_at {i : Nat} (hi : i < n) :
+    joined (((m.nodes.mergeSort fun a b => decide (a.id ≤ b.id)).filter hasAttr).map
+      fun nd => ((nd.id : Int), recOf nd.attrs)) ((i : Int), bareAt m i) = ((i : Int), fullAt m i) := by
+  obtain ⟨nd, hnd, hid, hat⟩ := S.exists_node hi
+  obtain ⟨hnodup, _⟩ := S.sortedNodes_facts
+  generalize (m.nodes.mergeSort fun a b => decide (a.id ≤ b.id)) = ns at hnd hnodup
+  have hkeys : (((ns.filter hasAttr).map fun nd => ((nd.id : Int), recOf nd.attrs)).map (·.1)).Nodup := by
+    rw [List.map_map]
+    have h1 : ((ns.filter hasAttr).map (·.id)).Nodup :=
+      (List.filter_sublist.map _).nodup hnodup
+    have : ((fun (x : Int × Atom) => x.1) ∘ fun (nd : Node) => ((nd.id : Int), recOf nd.attrs))
+        = (fun (k : Nat) => (k : Int)) ∘ (·.id) := rfl
+    rw [this, ← List.map_map]
+    exact NxRelabel.nodup_map_of_injOn _ h1 (fun a _ b _ h => by omega)
+  unfold joined
+  simp only
+  by_cases hh : hasAttr nd = true
+  · have hmem : ((i : Int), recOf (atomAt m i)) ∈
+        (ns.filter hasAttr).map fun nd => ((nd.id : Int), recOf nd.attrs) :=
+      List.mem_map.mpr ⟨nd, List.mem_filter.mpr ⟨hnd, hh⟩, by rw [hid, hat]⟩
+    rw [alookup_of_mem hkeys hmem]
+    simp only
+    rw [update_recOf _ _ rfl rfl]
+    rfl
+  · have hh' : hasAttr nd = false := by simpa using hh
+    have hnone : (i : Int) ∉ ((ns.filter hasAttr).map fun nd => ((nd.id : Int), recOf nd.attrs)).map (·.1) := by
+      intro hc
+      rw [List.map_map] at hc
+      obtain ⟨nd', hnd', hid'⟩ := List.mem_map.mp hc
+      obtain ⟨hin', hat'⟩ := List.mem_filter.mp hnd'
+      simp only [Function.comp] at hid'
+      have hii : nd'.id = nd.id := by omega
+      have := SerializeCongr.eq_of_nodup_map (·.id) hnodup hin' hnd hii
+      subst this
+      rw [hh'] at hat'
+      cases hat'
+    rw [alookup_none hnone]
+    simp only
+    obtain ⟨hm, hr⟩ := hasAttr_false hh'
+    rw [hat] at hm hr
+    unfold fullAt bareAt
+    rw [hm, hr]
+
+end SortedMol
+
+namespace SortedMol
+variable {m : Graph} {n : Nat} (S : SortedMol m n)
+include S
+
+theorem dict_eval :
+    forIn (((m.nodes.mergeSort fun a b => decide (a.id ≤ b.id)).filter hasAttr).map
+        fun nd => ((nd.id : Int), recOf nd.attrs))
+      (((List.range n).map (bareAt m)).zipIdx.map fun (a, i) => ((i : Int), a)) (joinStep n)
+    = .ok ((List.range n).map fun (i : Nat) => ((i : Int), fullAt m i)) := by
+  have hD0 : (((List.range n).map (bareAt m)).zipIdx.map fun (a, i) => ((i : Int), a))
+      = (List.range n).map fun (i : Nat) => ((i : Int), bareAt m i) := by
+    rw [zipIdx_range_map, List.map_map]
+    rfl
+  rw [hD0]
+  have hkeys : ((List.range n).map fun (i : Nat) => ((i : Int), bareAt m i)).map (·.1)
+      = (List.range n).map fun (i : Nat) => (i : Int) := by
+    rw [List.map_map]; rfl
+  have hnd : (((List.range n).map fun (i : Nat) => ((i : Int), bareAt m i)).map (·.1)).Nodup := by
+    rw [hkeys]
+    exact NxRelabel.nodup_map_of_injOn _ List.nodup_range (fun a _ b _ h => by omega)
+  obtain ⟨hnodup, hsub⟩ := S.sortedNodes_facts
+  have hmemE : ∀ e ∈ ((m.nodes.mergeSort fun a b => decide (a.id ≤ b.id)).filter hasAttr).map
+        (fun nd => ((nd.id : Int), recOf nd.attrs)),
+      e.1 < (n : Int) ∧ e.1 ∈ ((List.range n).map fun (i : Nat) => ((i : Int), bareAt m i)).map (·.1) := by
+    intro e he
+    obtain ⟨nd, hnd', rfl⟩ := List.mem_map.mp he
+    have hlt := (S.node_mol (hsub nd (List.mem_filter.mp hnd').1)).2.1
+    refine ⟨by simp only; omega, ?_⟩
+    rw [hkeys]
+    exact List.mem_map.mpr ⟨nd.id, List.mem_range.mpr hlt, rfl⟩
+  have hEk : ((((m.nodes.mergeSort fun a b => decide (a.id ≤ b.id)).filter hasAttr).map
+        fun nd => ((nd.id : Int), recOf nd.attrs)).map (·.1)).Nodup := by
+    rw [List.map_map]
+    have h1 : (((m.nodes.mergeSort fun a b => decide (a.id ≤ b.id)).filter hasAttr).map (·.id)).Nodup :=
+      (List.filter_sublist.map _).nodup hnodup
+    have : ((fun (x : Int × Atom) => x.1) ∘ fun (nd : Node) => ((nd.id : Int), recOf nd.attrs))
+        = (fun (k : Nat) => (k : Int)) ∘ (·.id) := rfl
+    rw [this, ← List.map_map]
+    exact NxRelabel.nodup_map_of_injOn _ h1 (fun a _ b _ h => by omega)
+  rw [join_eval (n : Int) _ _ hnd hmemE, join_fold _ _ hnd hEk (fun e he => (hmemE e he).2), List.map_map]
+  congr 1
+  apply List.map_congr_left
+  intro i hi
+  exact S.joined_at (List.mem_range.mp hi)
+
+end SortedMol
+
+namespace SortedMol
+variable {m : Graph} {n : Nat} (S : SortedMol m n)
+include S
+
+theorem edges_nodup : ((sortedEdges m).map castE).Nodup := by
+  have h1 : (sortedEdges m).Nodup := by
+    refine (sortedEdges_strict m S.wf S.simple).imp ?_
+    rintro ⟨a1, a2⟩ ⟨b1, b2⟩ h
+    simp only [ne_eq, Prod.mk.injEq]
+    simp only at h
+    omega
+  exact NxRelabel.nodup_map_of_injOn _ h1 (fun a _ b _ h => castE_inj h)
+
+theorem bondsDict_eval :
+    ((sortedEdges m).map castE).foldl (fun d b => ainsert b ({} : Bond) d) []
+      = ((sortedEdges m).map castE).map fun b => (b, ({} : Bond)) := by
+  rw [bondsDict_fold _ [] S.edges_nodup (by simp)]
+  rfl
+
+theorem goodBonds : GoodBonds n (((sortedEdges m).map castE).map fun b => (b, ({} : Bond))) := by
+  have hnorm : ∀ e ∈ sortedEdges m,
+      (fun (b : (Int × Int) × Bond) => if b.1.1 ≤ b.1.2 then (b.1.1, b.1.2) else (b.1.2, b.1.1))
+        ((fun b => (b, ({} : Bond))) (castE e)) = castE e := by
+    intro e he
+    obtain ⟨h1, _, _⟩ := S.edge_bounds he
+    show (if ((e.1 : Nat) : Int) ≤ ((e.2 : Nat) : Int) then (((e.1 : Nat) : Int), ((e.2 : Nat) : Int))
+      else (((e.2 : Nat) : Int), ((e.1 : Nat) : Int))) = castE e
+    rw [if_pos (by omega)]
+    rfl
+  refine ⟨?_, ?_⟩
+  · intro b hb
+    rw [List.map_map] at hb
+    obtain ⟨e, he, rfl⟩ := List.mem_map.mp hb
+    obtain ⟨h1, h2, _⟩ := S.edge_bounds he
+    simp only [Function.comp, castE]
+    omega
+  · rw [List.map_map, List.map_map]
+    have : (sortedEdges m).map (((fun (b : (Int × Int) × Bond) =>
+          if b.1.1 ≤ b.1.2 then (b.1.1, b.1.2) else (b.1.2, b.1.1)) ∘ (fun b => (b, ({} : Bond)))) ∘ castE)
+        = (sortedEdges m).map castE :=
+      List.map_congr_left (fun e he => hnorm e he)
+    rw [this]
+    exact S.edges_nodup
+
+theorem bonds_check : forIn ((sortedEdges m).map castE) PUnit.unit (checkStep n) = .ok PUnit.unit := by
+  apply check_eval
+  intro b hb
+  obtain ⟨e, he, rfl⟩ := List.mem_map.mp hb
+  obtain ⟨h1, h2, _⟩ := S.edge_bounds he
+  simp only [castE]
+  omega
+
+theorem atoms_length :
+    ((hillItems (m.nodes.filterMap (·.attrs.sym))).flatMap fun i => List.replicate i.2 (mkAtom i.1)).length = n := by
+  rw [S.bare_perm.length_eq]
+  simp
+
+end SortedMol
+
+theorem parse_run {m : Graph} {n : Nat} (S : SortedMol m n)
+    (hsize : (natRepr (n + 1)).length ≤ intMaxStrDigits) :
+    graphFromTucan (serializedText m) =
+      (graphFromMolecule ((List.range n).map fun (i : Nat) => ((i : Int), fullAt m i))
+        (((sortedEdges m).map castE).map fun b => (b, ({} : Bond)))) >>= fun x => pure x.1 := by
+  have hsyms : ∀ s ∈ m.nodes.filterMap (·.attrs.sym), s ∈ elementSyms :=
+    fun s hs => (S.syms_elem s hs).1
+  have hpos : ∀ nd ∈ m.nodes, (∀ v, nd.attrs.mass = some v → 0 < v) ∧
+      (∀ v, nd.attrs.rad = some v → 0 < v) :=
+    fun nd hnd => ⟨fun v hv => ((S.node_mol hnd).1.massPos v hv).1,
+      fun v hv => ((S.node_mol hnd).1.radPos v hv).1⟩
+  obtain ⟨toks, hlex, hparse, _⟩ := serialize_parses m hsyms hpos
+  unfold graphFromTucan
+  rw [hlex]
+  simp only [pure_bind]
+  rw [hparse]
+  simp only
+  rw [S.formula_listen hsize, S.tuples_listen hsize, S.attrs_listen hsize]
+  show toGraph _ = _
+  rw [toGraph_eq]
+  simp only
+  rw [S.atoms_length, S.bonds_check, S.sorted_atoms, S.bondsDict_eval]
+  rw [S.dict_eval]
+  rfl
+
+/-- the atom record of label `i` in the parsed graph -/
+def outAt (m : Graph) (i : Nat) : Atom :=
+  { sym := (atomAt m i).sym, z := (atomAt m i).z, part := some 0,
+    mass := (atomAt m i).mass, rad := (atomAt m i).rad, inv := (atomAt m i).inv }
+
+theorem fullAt_inv {m : Graph} {n : Nat} (S : SortedMol m n) {i : Nat} (hi : i < n) {x : Atom}
+    (hx : addInvariantCode (fullAt m i) = .ok x) : x = outAt m i := by
+  obtain ⟨z, _, hz, _, _, _, _, _, hinv⟩ := molAtom_facts (S.molAt hi)
+  unfold addInvariantCode fullAt at hx
+  simp only [hz, Except.ok.injEq] at hx
+  unfold outAt
+  rw [← hx, hinv, hz]
+
+theorem parse_back {m : Graph} {n : Nat} (S : SortedMol m n)
+    (hsize : (natRepr (n + 1)).length ≤ intMaxStrDigits) :
+    ∃ H, graphFromTucan (serializedText m) = .ok H ∧ Iso SameIdent id m H ∧
+      H.labels = List.range n ∧ H.WF ∧ H.Simple ∧ H.MolAtoms ∧
+      (∀ a ∈ H.labels, ∃ y, H.attrs? a = some y ∧ y.part = some 0) := by
+  have hlen : ((List.range n).map fun (i : Nat) => ((i : Int), fullAt m i)).length = n := by simp
+  have hget : ∀ i (hi : i < ((List.range n).map fun (i : Nat) => ((i : Int), fullAt m i)).length),
+      (((List.range n).map fun (i : Nat) => ((i : Int), fullAt m i))[i]).2 = fullAt m i := by
+    intro i hi
+    simp
+  obtain ⟨H, post, hgfm, hlab, hwf, hsimple, hattrs, hnbrs⟩ :=
+    graphFromMolecule_spec ((List.range n).map fun (i : Nat) => ((i : Int), fullAt m i))
+      (((sortedEdges m).map castE).map fun b => (b, ({} : Bond)))
+      (by unfold ConsecutiveKeys; rw [hlen, List.map_map]; rfl)
+      (by rw [hlen]; exact S.goodBonds)
+      (by
+        intro a ha
+        obtain ⟨i, hi, rfl⟩ := List.mem_map.mp ha
+        obtain ⟨z, _, hz, _⟩ := molAtom_facts (S.molAt (List.mem_range.mp hi))
+        show ((atomAt m i).z).isSome
+        rw [hz]; rfl)
+  rw [hlen] at hlab
+  -- attributes of `H`
+  have hHat : ∀ i, i < n → H.attrs? i = some (outAt m i) := by
+    intro i hi
+    obtain ⟨x, hx, hHx⟩ := hattrs i (by rw [hlen]; exact hi)
+    rw [hget i (by rw [hlen]; exact hi)] at hx
+    rw [hHx, fullAt_inv S hi hx]
+  have hmolH : ∀ i, i < n → MolAtom (outAt m i) := by
+    intro i hi
+    have hM := S.molAt hi
+    obtain ⟨z, hz, hs, hinv, hm0, hr0⟩ := hM.chem
+    exact ⟨⟨z, hz, hs, hinv, hm0, hr0⟩, hM.sym, hM.massPos, hM.radPos⟩
+  refine ⟨H, ?_, ?_, hlab, hwf, hsimple, ?_, ?_⟩
+  · rw [parse_run S hsize, hgfm]
+    rfl
+  · refine ⟨?_, fun _ _ _ _ h => h, ?_, ?_⟩
+    · rw [hlab, List.map_id]
+      exact S.labels.symm
+    · intro a ha
+      have hi := S.mem_labels.mp ha
+      refine ⟨atomAt m a, _, S.attrs_at hi, hHat a hi, ?_⟩
+      exact ⟨rfl, rfl, rfl, rfl, rfl⟩
+    · intro a ha
+      have hi := S.mem_labels.mp ha
+      simp only [id, List.map_id]
+      have nd1 : (H.nbrs a).Nodup := by
+        rw [Graph.nbrs_eq_nbrsD]; exact NxRelabel.wf_keysNodup hwf a
+      have nd2 : (m.nbrs a).Nodup := by
+        rw [Graph.nbrs_eq_nbrsD]; exact NxRelabel.wf_keysNodup S.wf a
+      refine (List.perm_ext_iff_of_nodup nd1 nd2).mpr ?_
+      intro j
+      show H.Adj a j ↔ m.Adj a j
+      rw [NxE.adj_iff]
+      constructor
+      · rintro ⟨d, hd⟩
+        rcases (hnbrs a j d).mp hd with hb | hb
+        · rw [List.map_map] at hb
+          obtain ⟨e, he, heq⟩ := List.mem_map.mp hb
+          simp only [Function.comp, castE, Prod.mk.injEq] at heq
+          obtain ⟨_, _, hadj⟩ := S.edge_bounds he
+          have h1 : e.1 = a := by omega
+          have h2 : e.2 = j := by omega
+          rw [h1, h2] at hadj
+          exact hadj
+        · rw [List.map_map] at hb
+          obtain ⟨e, he, heq⟩ := List.mem_map.mp hb
+          simp only [Function.comp, castE, Prod.mk.injEq] at heq
+          obtain ⟨_, _, hadj⟩ := S.edge_bounds he
+          have h1 : e.1 = j := by omega
+          have h2 : e.2 = a := by omega
+          rw [h1, h2] at hadj
+          exact adj_symm S.wf hadj
+      · intro hadj
+        have hne := adj_ne S.simple hadj
+        refine ⟨{}, (hnbrs a j {}).mpr ?_⟩
+        by_cases hlt : a < j
+        · left
+          have he := (sortedEdges_mem m S.wf S.simple a j).mpr ⟨hlt, hadj⟩
+          rw [List.map_map]
+          exact List.mem_map.mpr ⟨(a, j), he, rfl⟩
+        · right
+          have he := (sortedEdges_mem m S.wf S.simple j a).mpr ⟨by omega, adj_symm S.wf hadj⟩
+          rw [List.map_map]
+          exact List.mem_map.mpr ⟨(j, a), he, rfl⟩
+  · intro a ha x hx
+    rw [hlab] at ha
+    have hi := List.mem_range.mp ha
+    rw [hHat a hi] at hx
+    injection hx with hx
+    rw [← hx]
+    exact hmolH a hi
+  · intro a ha
+    rw [hlab] at ha
+    exact ⟨_, hHat a (List.mem_range.mp ha), rfl⟩
+
+/-! ## §2 the sorted molecule -/
+
+theorem head_le {z z' : Int} {r r' : List Key}
+    (h : (([z] : Key) :: r) < (([z'] : Key) :: r') ∨ (([z] : Key) :: r) = (([z'] : Key) :: r')) : z ≤ z' := by
+  rcases h with h | h
+  · rw [List.cons_lt_cons_iff] at h
+    rcases h with h | ⟨h, _⟩
+    · rw [List.cons_lt_cons_iff] at h
+      rcases h with h | ⟨h, _⟩
+      · omega
+      · omega
+    · simp at h; omega
+  · simp at h; omega
+
+theorem keyD_z {g : Graph} {a : Nat} {x : Atom} {z : Int} (hx : g.attrs? a = some x) (hz : x.z = some z) :
+    keyD g .atomicNumber a = [z] := by
+  unfold keyD
+  rw [hx]
+  simp [Atom.key, hz]
+
+theorem sorted_facts {g m : Graph} (hw : g.WF) (hs : g.Simple)
+    (hm : sortMoleculeByAttribute g .atomicNumber = .ok m)
+    (hz : ∀ a ∈ g.labels, ∃ x z, g.attrs? a = some x ∧ x.z = some z) :
+    Relabel (Graph.mapGet (SerializeCongr.sortMap g .atomicNumber)) g m ∧ m.WF ∧ m.Simple ∧
+    m.labels.Perm (List.range g.numberOfNodes) ∧
+    ∀ i j, i < j → j < g.numberOfNodes → (atomAt m i).z.getD 0 ≤ (atomAt m j).z.getD 0 := by
+  have e := SerializeCongr.sortBy_form hm
+  subst e
+  obtain ⟨rel, mw, ms, ml⟩ := Graph.relabelCopy_spec g _ hw hs (SerializeCongr.sortMap_inj hw .atomicNumber)
+  generalize hsrt : (g.labels.map fun a => (seqOf g .atomicNumber a, a)).mergeSort leSN = srt
+  have hsm : SerializeCongr.sortMap g .atomicNumber = (srt.map (·.2)).zipIdx := by
+    unfold SerializeCongr.sortMap; rw [hsrt]
+  have hpermS : srt.Perm (g.labels.map fun a => (seqOf g .atomicNumber a, a)) := by
+    rw [← hsrt]; exact List.mergeSort_perm _ _
+  have hperm : (srt.map (·.2)).Perm g.labels := by
+    refine (hpermS.map _).trans ?_
+    rw [List.map_map]
+    have : ((fun x : Seq × Nat => x.2) ∘ fun a => (seqOf g .atomicNumber a, a)) = id := rfl
+    rw [this, List.map_id]
+  have hnd : (srt.map (·.2)).Nodup := hperm.nodup_iff.mpr hw.nodup
+  have hlen : srt.length = g.numberOfNodes := by
+    have := hperm.length_eq
+    simpa [Graph.numberOfNodes, Graph.labels] using this
+  have hpair : srt.Pairwise (fun a b => leSN a b = true) := by
+    rw [← hsrt, leSN_eq]
+    exact List.pairwise_mergeSort (fun a b c => lePair_trans a b c) lePair_total _
+  rw [hsm] at rel ml
+  refine ⟨hsm ▸ rel, mw, ms, ?_, ?_⟩
+  · rw [hsm, ml, ← hlen]
+    have h1 := map_mapGet_zipIdx hnd
+    rw [List.length_map] at h1
+    rw [← h1]
+    exact hperm.symm.map _
+  · intro i j hij hj
+    have hj' : j < srt.length := by omega
+    have hi' : i < srt.length := by omega
+    -- the atoms at sorted positions `i` and `j`
+    have pos : ∀ k (hk : k < srt.length), ∃ x z, srt[k] = (seqOf g .atomicNumber (srt[k]).2, (srt[k]).2) ∧
+        g.attrs? (srt[k]).2 = some x ∧ x.z = some z ∧ atomAt (g.relabelCopy (srt.map (·.2)).zipIdx) k = x := by
+      intro k hk
+      have hmem : srt[k] ∈ g.labels.map fun a => (seqOf g .atomicNumber a, a) :=
+        hpermS.mem_iff.mp (List.getElem_mem hk)
+      obtain ⟨a, ha, hak⟩ := List.mem_map.mp hmem
+      have ha2 : (srt[k]).2 = a := by rw [← hak]
+      obtain ⟨x, z, hx, hxz⟩ := hz a ha
+      refine ⟨x, z, by rw [ha2, ← hak], by rw [ha2]; exact hx, hxz, ?_⟩
+      have hget : (srt.map (·.2))[k]? = some a := by
+        rw [List.getElem?_map, List.getElem?_eq_getElem hk, Option.map_some, ha2]
+      have hf := mapGet_zipIdx hnd hget
+      have hat := rel.attrs a ha
+      rw [hf, hx] at hat
+      unfold atomAt
+      rw [hat]; rfl
+    obtain ⟨xi, zi, hsi, hxi, hzi, hai⟩ := pos i hi'
+    obtain ⟨xj, zj, hsj, hxj, hzj, haj⟩ := pos j hj'
+    rw [hsm, hai, haj, hzi, hzj]
+    simp only [Option.getD_some]
+    have hle := (List.pairwise_iff_getElem.mp hpair) i j hi' hj' hij
+    rw [leSN_eq, lePair_iff, hsi, hsj] at hle
+    simp only at hle
+    unfold seqOf at hle
+    rw [keyD_z hxi hzi, keyD_z hxj hzj] at hle
+    rcases hle with h | ⟨h, _⟩
+    · exact head_le (Or.inl h)
+    · exact head_le (Or.inr h)
+
+/-! ## §5 assembly -/
+
+theorem molAtom_of_sameIdent {x y : Atom} (h : SameIdent x y) (hx : MolAtom x) : MolAtom y :=
+  ⟨h.chem hx.chem, by rw [← h.2.1]; exact hx.sym, by rw [← h.2.2.1]; exact hx.massPos,
+    by rw [← h.2.2.2.1]; exact hx.radPos⟩
+
+theorem molAtoms_of_iso {f : Nat → Nat} {g h : Graph} (iso : Iso SameIdent f g h) (hg : g.MolAtoms) :
+    h.MolAtoms := by
+  intro a ha x hx
+  obtain ⟨b, hb, rfl⟩ := iso.exists_preimage ha
+  obtain ⟨x0, y, hx0, hy, hxy⟩ := iso.attrs b hb
+  rw [hy] at hx
+  injection hx with hx
+  subst hx
+  exact molAtom_of_sameIdent hxy (hg b hb x0 hx0)
+
+theorem reset_iso_ident (c : Graph) : Iso SameIdent id c c.resetExplored := by
+  refine ⟨by rw [SerializeCongr.reset_labels, List.map_id], fun _ _ _ _ h => h, ?_, ?_⟩
+  · intro a ha
+    obtain ⟨x, hx⟩ := Graph.attrs?_some_of_mem ha
+    refine ⟨x, SerializeCongr.resetF a x, hx, by rw [id, SerializeCongr.reset_attrs?, hx]; rfl, ?_⟩
+    exact ⟨rfl, rfl, rfl, rfl, rfl⟩
+  · intro a _
+    rw [id, SerializeCongr.reset_nbrs, List.map_id]
+
+theorem sameIdent_of_eq' (x y : Atom) (h : x = y) : SameIdent x y := by
+  subst h; exact ⟨rfl, rfl, rfl, rfl, rfl⟩
+
 -- §MARK
 end RoundTrip
 
@@ -546,6 +1231,37 @@ theorem serialize_roundtrip (c : Graph) (hw : c.WF) (hs : c.Simple) (hmol : c.Mo
     ∃ (H : Graph) (τ : Nat → Nat), graphFromTucan s = .ok H ∧ Iso SameIdent τ c H ∧
       H.labels = List.range c.numberOfNodes ∧ H.WF ∧ H.Simple ∧ H.MolAtoms ∧
       (∀ a ∈ H.labels, ∃ y, H.attrs? a = some y ∧ y.part = some 0) := by
-  sorry
+  open RoundTrip SerializeCongr in
+  obtain ⟨fl, m, hfl, hm, rfl⟩ := serialize_form h
+  -- the BFS relabelling is a bijection of the labels
+  obtain ⟨fl0, hfl0, hk, hv, _⟩ := finalLabels_ok _ (view_wf c hw)
+  rw [hfl] at hfl0
+  injection hfl0 with hfl0
+  subst hfl0
+  have hk' : (fl.map (·.1)).Perm c.resetExplored.labels := hk
+  have hv' : (fl.map (·.2)).Perm c.resetExplored.labels := hv
+  have rw1 := reset_wf hw
+  have hinj : ∀ a ∈ c.resetExplored.labels, ∀ b ∈ c.resetExplored.labels,
+      Graph.mapGet fl a = Graph.mapGet fl b → a = b := fun a ha b hb hab =>
+    mapGet_inj (hk'.nodup_iff.2 rw1.nodup) (hv'.nodup_iff.2 rw1.nodup)
+      (hk'.mem_iff.2 ha) (hk'.mem_iff.2 hb) hab
+  obtain ⟨r1, w1, s1, l1⟩ := Graph.relabelCopy_spec _ fl rw1 (reset_simple hs) hinj
+  have iso1 : Iso SameIdent (Graph.mapGet fl ∘ id) c (c.resetExplored.relabelCopy fl) :=
+    Iso.trans sameIdent_trans' (reset_iso_ident c) (r1.toIso.mono sameIdent_of_eq')
+  have hmol1 := molAtoms_of_iso iso1 hmol
+  have hn1 : (c.resetExplored.relabelCopy fl).numberOfNodes = c.numberOfNodes := iso1.numberOfNodes
+  -- the sort by atomic number
+  obtain ⟨r2, mw, ms, mlab, mz⟩ := sorted_facts w1 s1 hm (by
+    intro a ha
+    obtain ⟨x, hx⟩ := Graph.attrs?_some_of_mem ha
+    obtain ⟨z, hz, _⟩ := (hmol1 a ha x hx).chem
+    exact ⟨x, z, hx, hz⟩)
+  rw [hn1] at mlab mz
+  have iso2 : Iso SameIdent (Graph.mapGet (sortMap (c.resetExplored.relabelCopy fl) .atomicNumber) ∘
+      (Graph.mapGet fl ∘ id)) c m :=
+    Iso.trans sameIdent_trans' iso1 (r2.toIso.mono sameIdent_of_eq')
+  have S : SortedMol m c.numberOfNodes := ⟨mw, ms, mlab, molAtoms_of_iso iso2 hmol, mz⟩
+  obtain ⟨H, hrun, isoH, hlab, hwH, hsH, hmolH, hpart⟩ := parse_back S hsize
+  exact ⟨H, _, hrun, Iso.trans sameIdent_trans' iso2 isoH, hlab, hwH, hsH, hmolH, hpart⟩
 
 end Tucan
